@@ -15,6 +15,7 @@ def reset_globals():
     compiler_frontend.FUNCTIONS.clear()
     compiler_frontend.LITERALS.clear()
     source_ref.USED_SOURCES.clear()
+    getattr(source_ref, "_SOURCE_PATHS", {}).clear()
     source_ref.REFS.clear()
     source_ref.index_map.clear()
     source_ref.next_index = 0
